@@ -97,7 +97,6 @@ func MergeClearSign(w io.Writer, sig []byte, message io.Reader) error {
 	}}
 
 	out := bufio.NewWriter(w)
-	defer out.Flush()
 	readPipe, writePipe := io.Pipe()
 	done := make(chan error)
 	go func() {
@@ -113,8 +112,11 @@ func MergeClearSign(w io.Writer, sig []byte, message io.Reader) error {
 		return err
 	}
 
-	_, err = out.Write(sig)
-	return err
+	if _, err := out.Write(sig); err != nil {
+		return err
+	}
+	// the document may still be in the buffer: a failure to write it out is a failure
+	return out.Flush()
 }
 
 // Copy bytes, stopping before the signature block at the end
